@@ -121,10 +121,7 @@ pub fn step_act<S: Src>(s: &mut S, ne: usize, nh: &[usize], op: Op, which: usize
     // act == None: arbitrary rings closed by `new` (base case and step in one harness);
     // act == Some(_): rings closed by construction, so `new` has nothing to push (cheaper state)
     let ext = if act.is_none() { any_ls(s, ne) } else { closed_ls(s, ne) };
-    let mut holes = Vec::with_capacity(nh.len() + 1);
-    for &k in nh {
-        holes.push(if act.is_none() { any_ls(s, k) } else { closed_ls(s, k) });
-    }
+    let holes = crate::gen::rings_vec(|k| if act.is_none() { any_ls(s, nh[k]) } else { closed_ls(s, nh[k]) }, nh.len());
     let mut p = Polygon::new(ext, holes);
     // base case: the constructor establishes the invariant
     assert!(poly_ok(&p), "Polygon::new leaves a ring open");
@@ -404,9 +401,15 @@ harnesses! {
     #[kani::unwind(8)] fn c18_step_intmut_h0(s) { step(s, 3, &[], Op::InteriorsMut, 0) }
     #[kani::unwind(8)] fn c18_step_intmut_h3(s) { step(s, 3, &[3], Op::InteriorsMut, 0) }
     #[kani::unwind(8)] fn c18_step_intmut_h33_w1_a4(s) { step_act(s, 2, &[3, 3], Op::InteriorsMut, 1, Some(4)) }
+    #[kani::unwind(8)] fn c18_step_intmut_h14a(s) { step(s, 2, &[1, 4], Op::InteriorsMut, 0) }
+    #[kani::unwind(8)] fn c18_step_intmut_h14b(s) { step(s, 2, &[1, 4], Op::InteriorsMut, 1) }
     #[kani::unwind(8)] fn c18_step_tryintmut_h0(s) { step(s, 3, &[], Op::TryInteriorsMut, 0) }
     #[kani::unwind(8)] fn c18_step_tryintmut_h3(s) { step(s, 3, &[3], Op::TryInteriorsMut, 0) }
     #[kani::unwind(8)] fn c18_step_tryintmut_h33_w1_a4(s) { step_act(s, 2, &[3, 3], Op::TryInteriorsMut, 1, Some(4)) }
+    #[kani::unwind(8)] fn c18_step_tryintmut_h14a(s) { step(s, 2, &[1, 4], Op::TryInteriorsMut, 0) }
+    #[kani::unwind(8)] fn c18_step_tryintmut_h14b(s) { step(s, 2, &[1, 4], Op::TryInteriorsMut, 1) }
+    #[kani::unwind(8)] fn c18_step_push_h12_k2(s) { step(s, 3, &[1, 2], Op::InteriorsPush, 2) }
+    #[kani::unwind(8)] fn c18_step_extmut_e3_h22(s) { step(s, 3, &[2, 2], Op::ExteriorMut, 0) }
     #[kani::unwind(8)] fn c18_step_push_k0(s) { step(s, 3, &[], Op::InteriorsPush, 0) }
     #[kani::unwind(8)] fn c18_step_push_k1(s) { step(s, 3, &[], Op::InteriorsPush, 1) }
     #[kani::unwind(8)] fn c18_step_push_k2(s) { step(s, 0, &[2], Op::InteriorsPush, 2) }
